@@ -27,7 +27,7 @@ def trim(s):
 def op_alphabet(nsess, cmds):
     ops = [("N",), ("T",)]
     for s in range(nsess):
-        ops += [("S", s), ("C", s)]
+        ops += [("S", s), ("C", s), ("X", s)]
         ops += [("D", s, o) for o in (1, 2, -1, 0, -7)]
         ops += [("A", s, c) for c in cmds]
     return ops
@@ -37,7 +37,7 @@ def gen_cases(ctx):
     rng = ctx.rng
     cases = []
     # exhaustive short sequences over a reduced alphabet (one or two sessions)
-    small = [("N",), ("T",), ("S", 0), ("S", 1), ("D", 0, 1), ("D", 0, -1), ("C", 0),
+    small = [("N",), ("T",), ("S", 0), ("S", 1), ("X", 0), ("D", 0, 1), ("D", 0, -1), ("C", 0),
              ("A", 0, "ls"), ("A", 0, "  echo a b  "), ("A", 1, "x=1"), ("A", 0, "#hash")]
     depth = 3 if ctx.quick else 5
     for d in range(1, depth + 1):
@@ -56,6 +56,8 @@ def gen_cases(ctx):
                 seq.append(("A", rng.randrange(0, 3), rng.choice(CMDS)))
             elif r < 0.65:
                 seq.append(("S", rng.randrange(0, 3)))
+            elif r < 0.72:
+                seq.append(("X", rng.randrange(0, 3)))
             else:
                 seq.append(rng.choice(alpha))
         cases.append((init, seq))
@@ -70,7 +72,7 @@ def encode(init, seq, nows=None):
             now = nows[k] if nows else 0
             k += 1
             f += ["A", str(o[1]), str(now), o[2]]
-        elif o[0] in ("S", "C"):
+        elif o[0] in ("S", "C", "X"):
             f += [o[0], str(o[1])]
         elif o[0] == "D":
             f += ["D", str(o[1]), str(o[2])]
@@ -102,6 +104,18 @@ def parse_states(fields):
     return st
 
 
+def stamp_of(comment):
+    """the stamp a '#<comment>' line denotes: an i64 in chrono's range, else none"""
+    t = trim(comment)
+    import re as _re
+    if not _re.fullmatch(r"[+-]?[0-9]+", t):
+        return "-"
+    v = int(t)
+    if not (-8334601228800 <= v <= 8210266876799):
+        return "-"
+    return str(v)
+
+
 def valid_cmd(c):
     t = trim(c)
     return "\n" not in t and not t.startswith("#")
@@ -124,6 +138,19 @@ def spec_check(init, seq, states):
             got = [c for (c, _, _) in ss[-1]] if ss else None
             if got != [c for c, _ in sess[-1]]:
                 return "reload: session commands %r differ from the file's command lines %r" % (got, [c for c, _ in sess[-1]])
+            # timestamps stay attached: a reloaded command carries exactly the stamp of the
+            # timestamp line written directly before it, and none otherwise
+            exp_ts = []
+            for j, l in enumerate(file_prev):
+                if l.startswith("#"):
+                    continue
+                t = "-"
+                if j > 0 and file_prev[j - 1].startswith("#"):
+                    t = stamp_of(file_prev[j - 1][1:])
+                exp_ts.append(t)
+            got_ts = [t for (_, t, _) in ss[-1]]
+            if got_ts != exp_ts:
+                return "reload: timestamps %r are not the ones written directly before each command %r" % (got_ts, exp_ts)
         elif o[0] == "T":
             tsflag = not tsflag
         elif o[1] < len(sess):
@@ -219,8 +246,8 @@ def run(ctx):
     return {
         "evaluations": len(cases),
         "distinct_nontrivial": len(distinct),
-        "rule": "op sequences over {Add(sid,cmd), Save(sid), NewSession, Delete(sid,off), Clear(sid), ToggleTs} on one shared HISTFILE: "
-                "all sequences up to length %d over an 11-op alphabet (%d cases) plus random sequences of length<=14 over 3 sessions, "
+        "rule": "op sequences over {Add(sid,cmd), Save(sid), SaveFail(sid: a save whose write fails, HISTFILE=/dev/full), NewSession, Delete(sid,off), Clear(sid), ToggleTs} on one shared HISTFILE: "
+                "all sequences up to length %d over a 12-op alphabet (%d cases) plus random sequences of length<=14 over 3 sessions, "
                 "8 commands (blank-padded, '#'-leading, empty, multi-byte, NBSP) and initial files with timestamp/comment/blank lines; "
                 "non-trivial = contains at least one Add and one Save; distinct by the (init, ops) pair"
                 % (3 if ctx.quick else 5, exhaustive_n),
